@@ -52,6 +52,22 @@ def run(ctx):
     step_mixing(ctx)
     vmap_docs(ctx)
     builder_agreement(ctx)
+    key_handling(ctx)
+
+
+def key_handling(ctx):
+    """PRNG-1 for the two storage formats: a closed-shell run gives the same numbers with restricted and with
+    unrestricted walkers only if both consume the PRNG key identically (new key stored back, subkey drawn from)."""
+    from ..rules import common
+    p = ctx.p
+    for P in ("propagation.propagator_restricted", "propagation.propagator_unrestricted"):
+        for meth in ("stochastic_reconfiguration_local",):
+            fi = p.lookup_method(P, meth)
+            if fi is None:
+                raise AnalysisError(f"{P}.{meth} not found")
+            n = common.prng1(ctx, fi)
+            if n < 1:
+                raise AnalysisError(f"{fi.qualname}: no random.split found")
 
 
 def _per_walker(run_: G.StepRun, t, fields_syms: Set) -> bool:
